@@ -348,6 +348,8 @@ def oracle_history(ctx, sf, spec_a, spec_b, share):
                 q2 = sf.io.loads(t1, ir=ir)
             except Exception:  # noqa: BLE001   (unloadable text is judged by oracle_spec)
                 continue
+            if q1 is q2 or any(c1.op is c2.op for c1, c2 in zip(q1.circuit, q2.circuit)):
+                ctx.fail(f"{tag}:load-returns-shared-objects", "loading the same text twice returns programs that share objects", rp)
             if snapshot(q1) != f1:
                 ctx.fail(f"{tag}:load-changes-earlier-loaded-program", "loading further texts changed a program loaded before", rp)
             if snapshot(q2) != f1:
@@ -417,31 +419,56 @@ def oracle_add_decl(ctx, sf, spec):
 
 def oracle_gate_definition(ctx, sf, rng, idx):
     """XIR scripts with gate definitions (get_expanded_statements): a defined gate applied to wires with
-    parameters must load as its body with parameters and wires substituted, in order, also nested"""
+    parameters must load as its body with parameters and wires substituted, in order; `inv` inside a body is
+    kept; `inv G` is the inverted body in reverse order; definitions may use earlier definitions (nesting)."""
     n = rng.randint(2, 4)
     body_classes = [("Sgate", 2, 1), ("Rgate", 1, 1), ("BSgate", 2, 2), ("Dgate", 2, 1)]
-    k_w = rng.randint(1, min(n, 2))
-    k_p = rng.randint(1, 3)
-    body = []
+    defs = {}      # name -> (k_p, k_w, body) with body entries (name, param idx list, wire idx list, inv)
+    lines = []
+
+    def expand(name, vals, wires, inv):
+        """independent statement of the meaning: list of (cls, params, wires, inv)"""
+        if name not in defs:
+            return [(name, list(vals), list(wires), inv)]
+        out = []
+        for bname, ps, ws, binv in defs[name][2]:
+            out += expand(bname, [vals[i] for i in ps], [wires[i] for i in ws], binv)
+        if inv:
+            out = [(c, p, w, not i) for c, p, w, i in reversed(out)]
+        return out
+
+    for d in range(rng.randint(1, 3)):
+        name = f"G{idx}x{d}"
+        k_w = rng.randint(1, min(n, 2))
+        k_p = rng.randint(2, 3)
+        body = []
+        for _ in range(rng.randint(1, 3)):
+            nested = [g for g, (gp, gw, _) in defs.items() if gw <= k_w and gp <= k_p]
+            if nested and rng.random() < 0.4:
+                g = rng.choice(nested)
+                gp, gw, _ = defs[g]
+                body.append((g, [rng.randrange(k_p) for _ in range(gp)], rng.sample(range(k_w), gw), rng.random() < 0.4))
+            else:
+                cls, npar, nw = rng.choice([b for b in body_classes if b[2] <= k_w])
+                body.append((cls, [rng.randrange(k_p) for _ in range(npar)], rng.sample(range(k_w), nw), rng.random() < 0.3))
+        defs[name] = (k_p, k_w, body)
+        lines.append(f"gate {name}({', '.join('a%d' % i for i in range(k_p))})[{', '.join('w%d' % i for i in range(k_w))}]:")
+        for bname, ps, ws, binv in body:
+            lines.append(f"    {'inv ' if binv else ''}{bname}({', '.join('a%d' % i for i in ps)}) | [{', '.join('w%d' % i for i in ws)}];")
+        lines.append("end;")
+    expect, apps = [], []
     for _ in range(rng.randint(1, 3)):
-        cls, npar, nw = rng.choice([b for b in body_classes if b[2] <= k_w])
-        body.append((cls, [rng.randrange(k_p) for _ in range(npar)], rng.sample(range(k_w), nw)))
-    lines = [f"gate G{idx}({', '.join('a%d' % i for i in range(k_p))})[{', '.join('w%d' % i for i in range(k_w))}]:"]
-    for cls, ps, ws in body:
-        lines.append(f"    {cls}({', '.join('a%d' % i for i in ps)}) | [{', '.join('w%d' % i for i in ws)}];")
-    lines.append("end;")
-    expect = []
-    apps = []
-    for _ in range(rng.randint(1, 3)):
+        g = rng.choice(list(defs))
+        k_p, k_w, _ = defs[g]
         vals = [rng.randint(-6, 6) / 8 for _ in range(k_p)]
         wires = rng.sample(range(n), k_w)
-        apps.append(f"G{idx}({', '.join(repr(v) for v in vals)}) | [{', '.join(map(str, wires))}];")
-        for cls, ps, ws in body:
-            expect.append((cls, [vals[i] for i in ps], [wires[i] for i in ws]))
+        inv = rng.random() < 0.4
+        apps.append(f"{'inv ' if inv else ''}{g}({', '.join(repr(v) for v in vals)}) | [{', '.join(map(str, wires))}];")
+        expect += expand(g, vals, wires, inv)
         if rng.random() < 0.5:
-            v, w = rng.randint(-6, 6) / 8, rng.randrange(n)
-            apps.append(f"Rgate({v!r}) | [{w}];")
-            expect.append(("Rgate", [v], [w]))
+            v, w, i2 = rng.randint(-6, 6) / 8, rng.randrange(n), rng.random() < 0.3
+            apps.append(f"{'inv ' if i2 else ''}Rgate({v!r}) | [{w}];")
+            expect.append(("Rgate", [v], [w], i2))
     text = "\n".join(lines + [""] + apps) + "\n"
     rp = dict(kind="gatedef", text=text, expect=expect)
     check_gate_definition(ctx, sf, text, expect, rp)
@@ -451,11 +478,11 @@ def check_gate_definition(ctx, sf, text, expect, rp):
     ctx.oracle_cases += 1
     try:
         p = sf.io.loads(text, ir="xir")
-        got = [(type(c.op).__name__, [float(x) for x in c.op.p], [r.ind for r in c.reg]) for c in p.circuit]
+        got = [(type(c.op).__name__, [float(x) for x in c.op.p], [r.ind for r in c.reg], bool(c.op.dagger)) for c in p.circuit]
     except Exception as e:  # noqa: BLE001
         ctx.fail(f"xir:gate-definition-raises:{type(e).__name__}", f"{str(e)[:120]} on\n{text}", rp)
         return
-    exp = [(c, [float(x) for x in ps], list(ws)) for c, ps, ws in expect]
+    exp = [(c, [float(x) for x in ps], list(ws), bool(i)) for c, ps, ws, i in expect]
     if got != exp:
         ctx.fail("xir:gate-definition-expansion", f"expanded statements {got} != {exp} for\n{text}", rp)
 
